@@ -526,6 +526,42 @@ theorem icpMod_history_le_init (align : Pairs ℝ → SE3 ℝ) (hal : AlignOk al
       exact hTT ▸ hf T' hfi
   exact icp_result_le_init align hal nn c.src c.tgt hnn (m.effInit c) hinit c.passes
 
+/-- **failing calls are atomic**: a history in which some calls raise gives the module and the results of the history
+without the failed calls. -/
+theorem icpMod_history_atomic (align : Pairs ℝ → SE3 ℝ) (nn : Cloud ℝ → Vec3 ℝ → Nat) (m : IcpMod ℝ)
+    (calls : List (Option (IcpCall ℝ))) :
+    IcpMod.runE align nn m calls = IcpMod.run align nn m (calls.filterMap id) := by
+  induction calls generalizing m with
+  | nil => rfl
+  | cons c cs ih =>
+    cases c with
+    | none => simp only [IcpMod.runE, List.filterMap_cons, id]; exact ih m
+    | some c =>
+      simp only [IcpMod.runE, List.filterMap_cons, id, IcpMod.run]
+      rw [ih]
+      rfl
+
+/-- **copies are independent**: with two module objects used interleaved in any order, neither object changes and every
+call returns what a fresh module with the state of the object it was made on returns — in particular a copy (equal
+state) and its original give equal results for equal arguments, and nothing one of them is asked changes the other. -/
+theorem icpMod_copies_independent (align : Pairs ℝ → SE3 ℝ) (nn : Cloud ℝ → Vec3 ℝ → Nat) (a b : IcpMod ℝ)
+    (calls : List (Bool × IcpCall ℝ)) :
+    (IcpMod.run2 align nn a b calls).1 = (a, b) ∧
+    (IcpMod.run2 align nn a b calls).2 = calls.map fun p => ((if p.1 then b else a).forward align nn p.2).2 := by
+  induction calls with
+  | nil => exact ⟨rfl, rfl⟩
+  | cons p ps ih =>
+    obtain ⟨w, c⟩ := p
+    cases w with
+    | false =>
+      simp only [IcpMod.run2, List.map_cons, Bool.false_eq_true, if_false]
+      have hm : (a.forward align nn c).1 = a := rfl
+      rw [hm]; exact ⟨ih.1, by rw [ih.2]⟩
+    | true =>
+      simp only [IcpMod.run2, List.map_cons, if_true]
+      have hm : (b.forward align nn c).1 = b := rfl
+      rw [hm]; exact ⟨ih.1, by rw [ih.2]⟩
+
 /-! ## Non-vacuity: the hypotheses are satisfiable by non-trivial values -/
 
 /-- a concrete reflection-prone problem: `M = diag(2, 2, -1)` has the SVD `1 · diag(2,2,1) · diag(1,1,-1)` with
